@@ -29,7 +29,9 @@
 (*                                with another ordering's: same value      *)
 (* A failed clause is KNOWN only if a deviation predicate Dev_* explains   *)
 (* that very observation (shape of the input set + the exact deviant       *)
-(* outcome); the same failure on any other shape stays a violation.        *)
+(* outcome); the same failure on any other shape stays a violation, and so *)
+(* does any difference between two observations that are both free of      *)
+(* deviations.                                                             *)
 (*                                                                         *)
 (* COVERAGE LAYER (drift): every observed outcome is one of the outcomes   *)
 (* reachable in the faithful MultiParse model; new_with_schemata behaves   *)
@@ -185,13 +187,16 @@ Judge(e) ==
       failObs  == UNION {IF Expl(obs[k]) = {} THEN {Clause(obs[k])} ELSE {} : k \in bad}
       knownObs == UNION {{id \o "|" \o Clause(obs[k]) : id \in Expl(obs[k])} : k \in bad}
       (* ---- determinism over permutations and runs ---- *)
+      (* Any two observations must agree.  A difference is KNOWN only if one of the two is itself a       *)
+      (* recognised deviant outcome (Expl # {}); two observations that are both free of deviations and    *)
+      (* still differ are a violation on every shape of input set.                                        *)
       nondet == \E a \in K : ~SameOutcome(obs[1], obs[a])          \* SameOutcome is an equivalence
-      orderIds == (IF D1 \in KnownIds /\ NestedRefShape(scn) THEN {D1} ELSE {})
-                  \cup (IF D2 \in KnownIds /\ NestedDupShape(scn) THEN {D2} ELSE {})
-                  \cup (IF D3 \in KnownIds /\ WrapperRefShape(scn) THEN {D3} ELSE {})
-      nondetKnown == nondet /\ failObs = {} /\ orderIds # {}
-      failOrder  == IF nondet /\ ~nondetKnown THEN {"C20:order-dependent"} ELSE {}
-      knownOrder == IF nondetKnown THEN {id \o "|C20:order-dependent" : id \in orderIds} ELSE {}
+      plain  == {k \in K : Expl(obs[k]) = {}}
+      failOrder == IF plain # {} /\ (LET c == CHOOSE k \in plain : TRUE IN
+                                     \E k \in plain : ~SameOutcome(obs[c], obs[k]))
+                   THEN {"C20:order-dependent"} ELSE {}
+      knownOrder == IF nondet /\ failOrder = {}
+                    THEN {id \o "|C20:order-dependent" : id \in UNION {Expl(obs[k]) : k \in K}} ELSE {}
       failResolve == If(\A k \in K : obs[k].resolved # "panic", "C20:panic")
       (* ---- datum exchange across orderings ---- *)
       allConf == bad = {}
